@@ -46,7 +46,7 @@ ASSUMPTIONS = ['floats are finite (NaN/inf are rejected or clamped by to68 and a
                'byte cells are at most 255 bytes (the component block size field is one byte)',
                'format specifications have entry block 2 (DSB type) = 0; LrDFSRRead refuses anything else by design',
                'Python assertions are enabled (EntryBlockSet._checkIntegrity is an assert)',
-               '|from68(to68(v)) - v| <= 2^-22 |v| for |v| in the normal range is checked on every float of the run; its proof belongs to C07']
+               '|from68(to68(v)) - v| < 2^-22 |v| for frexp exponent in -128..127 is C07\'s theorem to68_error (cited, not re-proved here) and is checked on every float of the run; v <= -2^127 is C07\'s open finding C07-to68-negative-clamp and outside C08\'s domain']
 TRUSTED = ['modelled, not verified: struct.pack/unpack of the formats 4B4s4s, BBB, >4s6s8s4sI2h3x2B5x, >h, >i, >I; dict/OrderedDict '
            'insertion order and key equality; File.FileRead.readLrBytes/hasLd over physical records (flat stream in the model)',
            'modelled, not verified: cpRepCode.to68/from68 (C) are modelled by the pRepCode algorithm on exact dyadics and '
